@@ -455,6 +455,11 @@ def r_counthint(ctx, rep):
                         for c in conds:
                             if any(m["name"] in ("len", "capacity") for m in walk_k(c["cond"], "MethodCall")) or any(bb["op"] in ("<", "<=", ">", ">=") for bb in walk_k(c["cond"], "Binary")):
                                 bad = (b, c)
+            # exits of the loop that are not tied to an XML event (e.g. a `while n != len` header)
+            in_match = {id(x) for x in walk(em["match"])}
+            for b in walk_k(em["loop"], "Break"):
+                if b.get("target") == em["loop"].get("id") and id(b) not in in_match:
+                    bad = (b, None)
             cnt = [s for s in str_lits(fn.body) if s in ("count", "uniqueCount")]
             if bad:
                 rep.violation("R-COUNTHINT", key, loc(bad[0]), "%s leaves its element loop early on a size comparison: a declared count (or any cap) smaller than the real number of entries truncates the list; the loop must run to the closing tag" % fname)
